@@ -17,7 +17,8 @@ RULE = ("1-8 molecules with arbitrary distinct ids, 0-40 labels (0 => skipped), 
         "row with channel 0, 0-2 extra columns, permuted column order, shuffled rows, permuted molecule order, id filters (subset, "
         "non-existent ids, empty => all), through both readQueries and readReferences; trim() on every map read.  non-trivial = "
         "file with shuffled rows and (a label-less molecule or an id filter); program-maps: the reference and query maps a Program built from "
-        "the command line holds (two files, or the same file for both, -rId/-qId independently present); distinct = distinct case")
+        "the command line holds (two files, or the same file for both, -rId/-qId independently present); big-file: block layouts of "
+        "up to ~500k rows, non-trivial = a requested molecule lies in more than one block of a file longer than 131072 rows; distinct = distinct case")
 ASSUMPTIONS = ["every molecule has exactly one end-marker row (LabelChannel 0) carrying its ContigLength, as CMAP files do",
                "inter-label distances after trim compared within 1e-6"]
 
@@ -125,6 +126,93 @@ def check_program(case):
         shutil.rmtree(d, ignore_errors=True)
 
 
+def check_big(case):
+    """files of 10^5 rows: a requested molecule's rows lie in blocks far apart, with hundreds of thousands of rows of other
+    molecules between them (the statement says: regardless of row or molecule order in the file).  The case is a block
+    layout; coordinates are arithmetic in the row number, so the model is the layout itself."""
+    from src.parsers.cmap_reader import CmapReader
+    ids, blocks, total = case["ids"], [], 0
+    for mi, n in case["blocks"]:       # at most ~300k rows: the workers run under a 3 GB address-space cap of the harness
+        n = max(1, min(n, 300000 - total))
+        total += n
+        blocks.append((mi, n))
+    labels = {i: [] for i in ids}
+    for mi, n in blocks:
+        i = ids[mi]
+        base = len(labels[i])
+        labels[i].extend(round((base + k) * 523.7 + mi * 0.3, 1) for k in range(n))
+    length = {i: round((labels[i][-1] if labels[i] else 0) + 1000.4, 1) for i in ids}
+    lines = list(cmap_text.HEADER) + [f"# Number of Consensus Maps:\t{len(ids)}", "#h " + "\t".join(cmap_text.COLS), "#f " + "\t".join(cmap_text.TYPES)]
+    seen = {i: 0 for i in ids}
+    nblocks = {i: sum(1 for mi, _ in blocks if ids[mi] == i) for i in ids}
+    blockno = {i: 0 for i in ids}
+
+    def end_row(i):
+        return f"{i}\t{length[i]:.1f}\t{len(labels[i])}\t{len(labels[i]) + 1}\t0\t{length[i]:.1f}\t0.0\t1.0\t1.0"
+    for i in ids:
+        if nblocks[i] == 0:            # a label-less molecule: its end marker only
+            lines.append(end_row(i))
+    for mi, n in blocks:
+        i = ids[mi]
+        blockno[i] += 1
+        if case["end_first"] and blockno[i] == 1:
+            lines.append(end_row(i))
+        ps = labels[i][seen[i]:seen[i] + n]
+        ks = range(seen[i], seen[i] + n)
+        rows = [f"{i}\t{length[i]:.1f}\t{len(labels[i])}\t{k + 1}\t1\t{p:.1f}\t0.0\t1.0\t1.0" for k, p in zip(ks, ps)]
+        if case["descending"]:
+            rows.reverse()
+        lines.extend(rows)
+        seen[i] += n
+        if not case["end_first"] and blockno[i] == nblocks[i]:
+            lines.append(end_row(i))
+    text = "\n".join(lines) + "\n"
+    nlines = len(lines)
+    del lines, rows
+    flt = case["filter"]
+    reader = CmapReader()
+    fn = reader.readQueries if case["api"] == "q" else reader.readReferences
+    try:
+        got = fn(io.StringIO(text), flt)
+    except MemoryError:
+        return {"nontrivial": False, "classes": ["inconclusive-harness-memory-cap"]}
+    except Exception as e:  # noqa: BLE001
+        if "out of memory" in str(e):      # pandas' tokenizer under the harness' own address-space cap: not the reader's doing
+            return {"nontrivial": False, "classes": ["inconclusive-harness-memory-cap"]}
+        sut(fn, io.StringIO(text), flt)
+        raise
+    del text
+    want = {i for i in ids if labels[i] and ((not flt) or i in flt)}
+    got_ids = [int(g.moleculeId) for g in got]
+    req(sorted(got_ids) == sorted(want), "big-molecule-set-wrong", f"{nlines} rows: returned ids {sorted(got_ids)}, expected {sorted(want)} (filter {flt})")
+    for g in got:
+        i = int(g.moleculeId)
+        gp = [float(x) for x in g.positions]
+        req(len(gp) == len(labels[i]), "big-label-count-wrong",
+            f"file of {nlines} rows, molecule {i} in {nblocks[i]} blocks: {len(labels[i])} labels in the file, reader returned {len(gp)} (filter {flt})")
+        req(gp == labels[i], "big-labels-wrong", lambda: f"molecule {i}: positions differ from the file's, first difference at "
+            f"{next(k for k, (a, b) in enumerate(zip(gp, labels[i])) if a != b)}")
+        req(g.length == int(length[i]), "big-length-wrong", f"molecule {i}: length {g.length}, end marker says {length[i]}")
+    split = [i for i in want if nblocks[i] > 1]
+    cl = ["filter" if flt else "no-filter", f"rows>={min(nlines // 65536, 4)}x65536"]
+    if split:
+        cl.append("requested-molecule-in-distant-blocks")
+    return {"nontrivial": bool(split) and nlines > 131072, "classes": cl}
+
+
+@st.composite
+def big_strategy(draw):
+    from vlib.gen_maps import SPECIAL_IDS
+    n = draw(st.integers(2, 6))
+    ids = draw(st.lists(st.one_of(st.integers(0, 30), st.sampled_from(SPECIAL_IDS[:9])), min_size=n, max_size=n, unique=True))
+    size = st.one_of(st.integers(1, 40), st.integers(1000, 9000), st.sampled_from([65535, 65536, 65537, 70000, 131072, 140000]))
+    blocks = draw(st.lists(st.tuples(st.integers(0, n - 1), size), min_size=2, max_size=8))
+    filt = draw(st.one_of(st.none(), st.lists(st.sampled_from(ids), min_size=1, max_size=3, unique=True),
+                          st.lists(st.sampled_from(ids), min_size=1, max_size=3, unique=True)))
+    return {"ids": ids, "blocks": [list(b) for b in blocks], "filter": filt, "end_first": draw(st.booleans()),
+            "descending": draw(st.booleans()), "api": draw(st.sampled_from(["q", "r"]))}
+
+
 def _maps(draw, n, idpool):
     ids = draw(st.lists(idpool, min_size=n, max_size=n, unique=True))
     maps = []
@@ -190,6 +278,10 @@ def subchecks(tier):
     subs.append(Sub("program-maps", "hyp", check_program, strategy=program_strategy, examples=2400 if q else 60000, shrink_budget=300,
                     describe="reference and query maps as Program reads them (two files or one file for both, -rId/-qId, queries trimmed)",
                     required_classes=("same-file", "rid", "qid")))
+    subs.append(Sub("big-file", "hyp", check_big, strategy=big_strategy, examples=160 if q else 3000, shrink_budget=200,
+                    describe="files of up to ~500k rows in which a molecule's rows lie in blocks separated by >65536 / >131072 rows of other "
+                             "molecules, end marker first or last, rows descending inside a block, id filters",
+                    required_classes=("requested-molecule-in-distant-blocks",)))
     if not q:
         subs.append(fuzz_variant(next(s for s in subs if s.name == "read-and-trim"), 15000))
     return subs
